@@ -110,6 +110,7 @@ Kind(a) ==
         ELSE IF a.pid = "IN" THEN (IF a.ep = 0 THEN "in0" ELSE IF a.ep \in InEps THEN "in_ep" ELSE "in_none")
         ELSE IF a.pid = "OUT" THEN (IF a.ep = 0 THEN "out0_tok" ELSE IF a.ep \in OutEps THEN "out_ep_tok"
                                     ELSE "out_none_tok")
+        ELSE IF a.pid = "PING" THEN (IF a.ep = 0 THEN "ping0" ELSE "ping_ep")   \* flow-control probe of an OUT endpoint
         ELSE "foreign"
     ELSE IF a.a = "data" THEN
         IF ctx.k = "setup" THEN "setup_data"
@@ -177,6 +178,9 @@ Judge(a, r) ==
       [] k \in {"in_none", "out_none_data"} ->
             IF Unit \/ ~a.ok THEN (IF r.k = "none" THEN "ok" ELSE "unsolicited")
             ELSE IF Lenient(r) THEN "ok" ELSE "ep_resp"
+      [] k \in {"ping0", "ping_ep"} ->        \* a PING is answered with a handshake or (full speed) not at all - never with data
+            IF Unit THEN (IF r.k = "none" THEN "ok" ELSE "unsolicited")
+            ELSE IF r.k \in {"none", "ACK", "NAK", "STALL"} THEN "ok" ELSE "ep_resp"
       [] k = "foreign" -> IF r.k = "none" THEN "ok"
                           ELSE IF a.ok THEN "resp_foreign_addr" ELSE "unsolicited"
       [] k = "stray_data" -> IF r.k = "none" THEN "ok"              \* a data packet that follows no token of ours
@@ -196,7 +200,7 @@ XferAfter(a, r) ==
             IF st \in {"din", "sin"} THEN [xf EXCEPT !.st = IF r.k = "STALL" THEN "stall" ELSE st]
             ELSE xf              \* an IN while the status stage expects OUT (or nothing is in progress) is not answered
                                  \* with data (Judge) and leaves the transfer where it is
-      [] k = "out0_tok" -> [xf EXCEPT !.st = StageForOut(xf)]     \* an OUT token ends the IN data stage [8.5.3]
+      [] k \in {"out0_tok", "ping0"} -> [xf EXCEPT !.st = StageForOut(xf)]     \* an OUT token ends the IN data stage [8.5.3]
       [] k = "out0_data" ->
             LET st == StageForOut(xf) IN
             IF ~a.ok THEN (IF st = "sout" THEN [xf EXCEPT !.st = "sout"] ELSE xf)
@@ -252,7 +256,8 @@ KF_C08(a)  == Kind(a) = "ack" /\ ctx.ep # 0 /\ stale /\ xf.type = 0 /\ xf.req \i
 KF_FA(a) == /\ Kind(a) = "foreign_ack" /\ pend = 0
             /\ \/ (xf.st = "din" /\ xf.type = 0 /\ xf.req = 6)
                \/ (xf.st = "sin" /\ xf.cls = "sup" /\ xf.req \in {1, 5, 9})
-KfTrip(a) == IF KF_FA(a) THEN "FA" ELSE "none"
+(* (FA was repaired in /repo 2853d07 as well: at present no finding is open and nothing is carved out.) *)
+KfTrip(a) == "none"
 
 ArmedAfter(a) ==
     LET k == Kind(a) IN
@@ -304,8 +309,8 @@ StaleAfter(a, r) ==
 EnvOK(a) ==
     /\ a.a = "data" => ctx.k \in {"setup", "out", "ftok", "btok"}                   \* data packets follow a SETUP/OUT token
     /\ (a.a = "data" /\ ctx.k = "setup" /\ a.ok) => a.pid = "DATA0"          \* SETUP data is DATA0
-    /\ Kind(a) \in {"in0", "out0_tok"} => xf.cls # "gray"                   \* a non-canonical request is not pursued
-    /\ Kind(a) \in {"in0", "out0_tok"} => xf.st # "reset"                   \* after a bus reset the host starts with a SETUP
+    /\ Kind(a) \in {"in0", "out0_tok", "ping0"} => xf.cls # "gray"                   \* a non-canonical request is not pursued
+    /\ Kind(a) \in {"in0", "out0_tok", "ping0"} => xf.st # "reset"                   \* after a bus reset the host starts with a SETUP
     /\ (Kind(a) = "setup_tok") => a.ep = 0                                   \* SETUP goes to the control endpoint
     /\ a.a = "hs" => (a.pid = "ACK" /\ ctx.k \in {"sent", "fin"})     \* the host ACKs data it was just sent - by this device,
                                                                       \* or (invisibly to it) by a device at another address
@@ -364,7 +369,7 @@ StatusOutOnlyAfterInData ==
     [][(Kind(act') = "out0_data" /\ resp'.k = "ACK") => (xf.dirIn /\ xf.len > 0 /\ xf.st \in {"din", "sout"})]_vars
 FreshSetup ==
     [][(Kind(act') = "setup_data" /\ ValidSetupData(act')) => xf' = NewXfer(act'.bytes)]_vars
-NotMine(a) == \/ Kind(a) \in {"foreign", "in_ep", "in_none", "out_ep_tok", "out_none_tok", "out_ep_data",
+NotMine(a) == \/ Kind(a) \in {"foreign", "in_ep", "in_none", "ping_ep", "out_ep_tok", "out_none_tok", "out_ep_data",
                               "out_none_data", "stray_data", "sof", "junk", "stray_hs", "idle", "foreign_ack"}
               \/ (Kind(a) = "ack" /\ ctx.ep # 0)
 OtherTrafficInvisible == [][NotMine(act') => (xf' = xf /\ addr' = addr /\ cfg' = cfg)]_vars
